@@ -19,7 +19,7 @@ func init() {
 			"the statement's 'random beyond the bound' is replaced by the exhaustive bound; longer sequences are argued by the automaton having 3 states",
 		},
 		BoundsQuick:    "13 kinds, all sequences of length 0..5 (402 234)",
-		BoundsThorough: "13 kinds, all sequences of length 0..6 (5 229 043)",
+		BoundsThorough: "13 kinds, all sequences of length 0..7 (67 977 560)",
 	})
 }
 
@@ -77,7 +77,7 @@ func runC11(c *bx.Ctx) {
 	}
 	maxLen := 5
 	if c.Thorough() {
-		maxLen = 6
+		maxLen = 7
 	}
 	idx := make([]int, 0, maxLen)
 	check := func() {
